@@ -116,7 +116,9 @@ def classify(w):
 
 def replay(eng, ob, model, seed):
     # the search reports only failures of the function whose obligation failed
-    focus = "delitem" if "__delitem__" in ob.fn_key else ("namespace" if "get_namespace" in ob.fn_key else "other")
+    keys = " ".join(ob if isinstance(ob, (list, tuple)) else [ob.fn_key])
+    focus = None if not keys else ("delitem" if "__delitem__" in keys and "get_namespace" not in keys else
+                                   ("namespace" if "get_namespace" in keys and "__delitem__" not in keys else None))
     w, tried = search(focus=focus)
     if w is None:
         return {"failed_on_real_code": False, "candidates_tried": tried,
